@@ -254,3 +254,82 @@ def run(ctx):
         ctx.count("planted:" + score)
         if it < 2:
             ctx.sample(inp)
+
+    # ---------------- planted copies under rotations that are NOT grid rotations (interpolated by the library itself)
+    # The copy is produced with the backend's own rigid_transform, added on a target with a non-zero background level; the
+    # default full-box mask (FLC) is clipped by such rotations, the spherical one (FLCSphericalMask) is not.
+    from tme.backends import backend as be
+    from tme.matching_utils import euler_to_rotationmatrix
+
+    def blobs(shape, r):
+        grid = np.indices(shape).astype(np.float64)
+        out = np.zeros(shape)
+        for _ in range(4 * len(shape)):
+            c = [r.uniform(1.0, s_ - 2.0) for s_ in shape]
+            sg = r.uniform(1.0, 1.8)
+            out += r.uniform(0.5, 1.5) * np.exp(-sum((g - ci) ** 2 for g, ci in zip(grid, c)) / (2 * sg ** 2))
+        return out
+    def far_apart(mats, deg=25.0):
+        for i in range(len(mats)):
+            for j in range(i):
+                c = (np.trace(mats[i].T @ mats[j]) - (1 if len(mats[i]) == 3 else 0)) / 2
+                if np.degrees(np.arccos(np.clip(c, -1, 1))) < deg:
+                    return False
+        return True
+    nir = ctx.budget(6, 40)
+    for it in range(nir):
+        nd = 2 if it % 2 else 3
+        # FLC with its default full-box mask: template and mask are rotated together, so the window under the rotated mask
+        # IS the rotated template.  (FLCSphericalMask keeps the mask fixed and interpolates the masked template across the
+        # mask edge: there "a copy" is only approximate and a neighbouring rotation can win - not asserted here.)
+        score = "FLC"
+        m = int(rng.integers(12, 17)) if nd == 2 else int(rng.integers(9, 12))
+        ms = [m] * nd
+        ns = [int(rng.integers(3 * m, 3 * m + 6)) for _ in range(nd)]
+        template = blobs(ms, rng)
+        mask = np.ones(ms)
+        if nd == 2:
+            a0 = float(rng.uniform(25, 95))
+            angles = [(a0,), (a0 + 120.0,), (a0 + 240.0,)]
+            mats = [np.eye(2)] + [np.array([[np.cos(t), -np.sin(t)], [np.sin(t), np.cos(t)]]) for t in np.deg2rad([a[0] for a in angles])]
+        else:
+            mats = None
+            for _ in range(200):
+                angles = [tuple(float(x) for x in rng.uniform(15, 165, size=3)) for _ in range(3)]
+                cand = [np.eye(3)] + [euler_to_rotationmatrix(a) for a in angles]
+                if far_apart([np.asarray(x, np.float64) for x in cand], 30.0):
+                    mats = cand
+                    break
+            if mats is None:
+                angles = [(45.0, 0.0, 0.0), (30.0, 40.0, 70.0), (100.0, 80.0, 20.0)]
+                mats = [np.eye(3)] + [euler_to_rotationmatrix(a) for a in angles]
+        R = np.stack(mats).astype(np.float32)
+        which = 1 + it % (len(mats) - 1)
+        plant = np.zeros(ms, np.float32)
+        be.rigid_transform(arr=(template * mask).astype(np.float32), rotation_matrix=R[which], out=plant, use_geometric_center=True, order=3)
+        p = [int(rng.integers(m, n - m)) for n in ns]
+        level = float(rng.choice([3.0, -2.0, 10.0]))
+        target = rng.normal(level, 0.05, size=ns)
+        sl = tuple(slice(pi - m // 2, pi - m // 2 + m) for pi in p)
+        target[sl] += plant
+        res, fp = S.run_scan(score, target, template, mask=None if score == "FLC" else mask, rotations=R, pad=True, order=3, dtype=np.float32)
+        sc = np.asarray(res[0], np.float64).copy()
+        sc[sc <= SENTINEL / 2] = np.nan
+        rot_ids, table = np.asarray(res[2]), dict(res[3])
+        best = [int(x) for x in np.unravel_index(int(np.nanargmax(sc)), sc.shape)]
+        rid = int(rot_ids[tuple(best)])
+        mat = None
+        for k, v in table.items():
+            if isinstance(k, (bytes, bytearray)) and int(v) == rid:
+                mat = np.frombuffer(k, dtype=np.float32 if len(k) == 4 * nd * nd else np.float64).reshape(nd, nd)
+        inp = {"score": score, "ns": ns, "ms": ms, "planted_at": p, "rotation_matrix": R[which].tolist(), "background": level,
+               "interpolated": True, "seed_state": int(it)}
+        ctx.spec("planted copy (interpolated rotation): highest score at the planted position, value ~ 1, planted rotation", inp,
+                 bool(best == p and np.nanmax(sc) >= 0.9 and mat is not None and np.allclose(mat, R[which], atol=1e-6)),
+                 {"argmax": best, "max": float(np.nanmax(sc)), "score at planted": float(sc[tuple(p)]),
+                  "rotation reported": None if mat is None else mat.tolist()}, key=f"{score}:planted-interpolated")
+        ctx.spec("every score of the run is finite and within [-1, 1] up to rounding", inp,
+                 bool(np.all(np.isfinite(sc[~np.isnan(sc)])) and np.nanmax(np.abs(sc)) <= 1 + TAU[False]),
+                 {"max|s|": float(np.nanmax(np.abs(sc)))}, key=f"{score}:bound:interpolated")
+        ctx.distinct(("planted-interp", score, tuple(ns), tuple(p), which, level))
+        ctx.count("planted-interpolated:" + score)
